@@ -287,6 +287,33 @@ impl Recovery {
     }
 }
 
+/// Verification hook: read-only view of the recovery phase.
+#[cfg(librqbit_utp_verif)]
+impl Recovery {
+    /// (kind, a, b, c, d, e): 0 counting(dup_acks) | 1 ignoring(recovery_point)
+    /// | 2 recovering(recovery_point, high_rxt, total_retransmitted, pipe, cwnd)
+    pub fn verif_phase(&self) -> (u8, i64, i64, i64, i64, i64) {
+        match &self.phase {
+            RecoveryPhase::CountingDuplicates { dup_acks } => (0, *dup_acks as i64, -1, -1, -1, -1),
+            RecoveryPhase::IgnoringUntilRecoveryPoint { recovery_point } => {
+                (1, recovery_point.0 as i64, -1, -1, -1, -1)
+            }
+            RecoveryPhase::Recovering(r) => (
+                2,
+                r.recovery_point.0 as i64,
+                r.high_rxt.0 as i64,
+                r.total_retransmitted_segments as i64,
+                r.pipe_estimate.pipe as i64,
+                r.cwnd as i64,
+            ),
+        }
+    }
+
+    pub fn verif_supports_sack(&self) -> bool {
+        self.receiver_supports_sack
+    }
+}
+
 impl Default for Recovery {
     fn default() -> Self {
         Self::new()
